@@ -51,12 +51,12 @@ CHECKS = {
     ),
     "C09": dict(
         text="Postulate instances (DI, REF, SCL, LLE, RW, AND, OR, CM, CUT, consistency preservation, RM for Z and lex) are generated per base with premises the code itself answered True; TLC checks premises => conclusion on the recorded answers; the schemas are TLC-checked theorems of the spec for all propositions over 2 atoms.",
-        note="Monitor over the code's own answers; vacuity guard: the check fails as machinery error if any postulate never fires with true premises.",
+        note="Monitor over the code's own answers; vacuity guard: the check fails as machinery error if any postulate never fires with true premises. Bases of every consistency shape (incl. no finite layer in extended mode); antecedents also serve as consequents and OR is instantiated with antecedents under which everything asked was entailed.",
         ref="6 C09", tech="TLA+ Relations monitor validated by TLC over recorded answers (trace validation); postulates model-checked on the spec",
     ),
     "C11": dict(
         text="Equality of answers across every usable pmaxsat_solver value (z3, rc2, rc2-<engine>; engines smoke-tested in subprocesses) for System W, lex and c-inference in both modes, checked by TLC on recorded answers for corpora, generated and sampled bases.",
-        note="Quick compares z3, rc2 and 4 seeded engines; thorough all 17 usable engines. Unusable engines (cms, ks, lgl) are listed in the evidence.",
+        note="Quick compares z3, rc2 and 4 seeded engines on the broad corpus and EVERY usable engine on the tie-heavy inputs (defaults-and-exceptions, TLC-found distinguishing inputs, specificity chains, duplicated conditionals); thorough all usable engines everywhere. Unusable engines (cms, ks, lgl, mpl) are listed in the evidence.",
         ref="6 C11", tech="TLA+ Relations monitor validated by TLC over recorded answers (trace validation)",
     ),
     "C12": dict(
@@ -76,7 +76,7 @@ CHECKS = {
     ),
     "C13": dict(
         text="Manager.tla models the call machine as the code structures it (CallStart, PrepSkip/Run/Refuse, Answer in submission order or Spawn + WorkerDone in any order, CallReturn/CallRaise); TLC checks all histories within small bounds and shows that the originally coded text-keyed plumbing variant violates RowsOwnKey. Histories (seeded, and TLC-simulated behaviours) are executed on real managers of every operator/back-end/mode under an external recorder and each recorded trace is validated by TLC against the machine: every event must be matched by the spec action with the logged fields bound, rows must equal the spec's table, no child process may be alive at return. The repository's own tests run under the same recorder (pytest plugin) and every manager they create is validated the same way.",
-        note="Reference answer of a query = its answer alone on a fresh manager. Worker completion orders are varied by delays, not enumerated on the real code (they are enumerated in the model).",
+        note="Reference answer of a query = its answer alone on a fresh manager. Scenarios include queries over atoms outside the base and literal sweeps (all 36 conditionals between literals over 3 atoms in long sequential batches). Every returned row's descriptive columns must repeat the manager's configuration. Worker completion orders are varied by delays, not enumerated on the real code (they are enumerated in the model).",
         ref="6 C13", tech="TLA+ state machine model-checked by TLC; TLC trace validation of recorded executions (IsEvent pattern); TLC-simulated behaviours replayed",
     ),
     "C14": dict(
@@ -87,7 +87,7 @@ CHECKS = {
     ),
     "C16": dict(
         text="Ocf.tla models the ranking object's lazy cache (RankWorld lazy/forced, ComputeAll, Touch by formula_rank/acceptance, Save/SaveFail/Load); TLC checks all interleavings keep the cache exact. Life cycles of real System Z ranking objects (bases consistent for the mode, fact lists, extended in {None, False, True}, random operation orders, plus the System Z operator's answer to the same query) are recorded and validated by TLC: the object's ranks must be KZStar of the fact-augmented base from the semantic core, construction is refused exactly when the combination is inconsistent, acceptance equals the operator whenever the antecedent has a feasible model.",
-        note="Same trusted base as C01 for the semantic core; bases over 2-3 atoms.",
+        note="Same trusted base as C01 for the semantic core; bases over 2-3 atoms; the object's own partition accessors (layer sizes, extended flag, infinity layer) are validated against the tolerance partition of the augmented base (zview events).",
         ref="6 C16", tech="TLA+ life-cycle machine model-checked by TLC; TLC trace validation of recorded object life cycles against the machine and the semantic core",
     ),
     "C18": dict(
@@ -97,12 +97,12 @@ CHECKS = {
     ),
     "C20": dict(
         text="Ocf.tla has an explicit disk: Save from every partial-computation state, SaveFail (unchanged objects), Load; TLC checks cache/disk exactness and that copies agree. Real objects of every kind are saved from partially computed states, with real failures (missing directory, unwritable path, unpicklable member), loaded in the same process and in a fresh interpreter, ranked further on original and copy; impacts and metadata round trips are recorded as equalities; every life cycle is validated by TLC against the machine.",
-        note="Failure points are the two the property names (unwritable target, unserialisable member); a crash of the interpreter in the middle of pickle.dump is not produced.",
+        note="Failure points are the two the property names (unwritable target, unserialisable member); a crash of the interpreter in the middle of pickle.dump is not produced. Impact vectors are values: lists handed to / returned by an object are mutated by the driver afterwards and the object must be unaffected. System Z copies must report the same partition.",
         ref="6 C20", tech="TLA+ life-cycle machine with disk and SaveFail action model-checked by TLC; TLC trace validation of recorded save/load histories incl. injected failures",
     ),
     "C17": dict(
         text="c-representation ranking objects for strongly consistent bases (single-conditional and unfalsifiable conditionals included) are constructed on the real code; TLC checks on the recorded life cycle that the impacts are non-negative, form a c-representation, that no c-representation lies strictly below them (finite downward search = Pareto-minimality), that ranks equal the impact sums, that every base conditional and every query c-inference answers True is accepted; c_inference_pareto_front runs in a subprocess under a 60 s limit and TLC checks the returned vectors are exactly the Pareto-minimal c-representations up to the stated impact bound.",
-        note="Completeness of the front is checked up to max(2^(n-1), largest returned)+1 per impact; everything else is exact. Bases over 2-3 atoms, <= 3 conditionals.",
+        note="Completeness of the front is checked up to max(2^(n-1), largest returned)+1 per impact; everything else is exact. Bases over 2-3 atoms, <= 3 conditionals, stored under keys 1..n or (40 %) permuted / shifted / sparse / 0-based keys; impact vectors are read in ascending key order. A global z3 time-out of 120 s turns a constraint system z3 cannot finish into a refused construction.",
         ref="6 C17", tech="TLC trace validation of recorded object life cycles against TLA+ definitions (IsCRep, SmallerCReps, ParetoMin)",
     ),
     "C19": dict(
